@@ -61,6 +61,11 @@ CHECKS = {
                   "Tie: k/8 coordinates (squares exact in f64), coincident atoms, cut-offs and radii on half-steps so that no query lies on a rounding tie.",
              note="sqrt is avoided by comparing squares; IEEE rounding on arbitrary coordinates not modelled; the map-building loop of chains_in_contact is tied by correspondence (its predicate is proved).",
              technique="Lean 4 + Mathlib (ring, nlinarith, omega) on Int-valued geometry + regenerated radii + differential correspondence; R*-tree by brute-force comparison", ref="DESIGN §7 C14"),
+ 'C16': dict(text="Theorems: for every schedule (any interleaving of any number of threads' atomic fetch-and-add steps) the identities handed out are pairwise distinct and not below the initial counter (hence distinct from all earlier atoms); a non-atomic counter is shown to duplicate (why atomicity is assumed); "
+                  "on a structure whose bonds were created on its own atoms listing bonds never fails; the clone (fresh identities, remapped table) resolves to exactly the same atom positions, is again well bonded, and has the same position-wise bond view used by equality; add_bond records exactly the two atoms found or changes nothing. "
+                  "Tie: structures with bonds from SSBOND records, add_bond and connect_atoms x {clone, serde value round trip, second read} x later edits: equality, full snapshot, bonds as position pairs (model computes the clone's resolved bonds from the identities and bond table seen through serde); 1-16 threads creating and cloning atoms concurrently.",
+             note="Atomicity of fetch_add (std::sync::atomic) is assumed; real threads are exercised, schedules not enumerated. A deserialised copy keeps the stored identities (not 'created or cloned'): outside the statement. Hierarchy/field equality of copies is plain data equality.",
+             technique="Lean 4 theorems over an identity/bond-table model (all schedules) + differential correspondence + concurrent stress", ref="DESIGN §7 C16"),
 }
 NOT_APPLICABLE = {}
 ALL = ['C%02d' % i for i in range(1, 19)]
